@@ -102,4 +102,35 @@ TEXT = {
         "note": COMMON_NOTE + " hex-simd output extent by contract + sentinel test.",
         "technique": "Lean 4 proof (overwrite contract) + every-buffer-length differential replay",
     },
+    "C02": {
+        "level": "Proof: for every comparison configuration (5 body back ends incl. SSE2/SSE4.1/AVX2, length table "
+                 "on/off, 3 Q-ratio table modes), valid variant, pair of well-formed hashes and mode: "
+                 "compare_with_config = the reference distance (compare_eq_spec); the body kernels are the ones "
+                 "REGENERATED from the Rust source each run (Gen/Kernels.lean) and are proved equal to the dibit "
+                 "sum (bv_decide word lemmas + Nat bridge + lane/horizontal-sum lemmas); ring/length/Q-ratio/"
+                 "checksum parts proved for all byte pairs; max_distance = reference maximum. Correspondence: all "
+                 "256x256 header byte pairs; per-position 256x256 body byte pairs through every compiled back end.",
+        "note": COMMON_NOTE + " bv_decide axioms in the word-level kernel lemmas (Lean compiler/runtime trusted for "
+                "the LRAT checker); hand-written x86 intrinsic semantics validated against the CPU.",
+        "technique": "Lean 4 proof over kernels translated from source (bv_decide for word lemmas) + per-back-end "
+                     "exhaustive byte-pair differential replay",
+    },
+    "C08": {
+        "level": "Proof on the reference distance, transferred to the model by C02: d(a,a)=0; d_Default(a,b)=0 => "
+                 "a=b; symmetry; d <= max_distance with explicit witnesses attaining it for every variant and mode; "
+                 "d_Default = d_NoLength + length distance; clearing both checksums lowers d by exactly the "
+                 "checksum distance. All for every pair of well-formed hashes. The probe additionally evaluates "
+                 "each law on the compiled code for every generated pair.",
+        "note": COMMON_NOTE + " *_model corollaries inherit C02's bv_decide axioms.",
+        "technique": "Lean 4 proof of the algebraic laws on the spec + transfer theorem + direct law oracles",
+    },
+    "C13": {
+        "level": "Proof: compare_with is exactly the match of the property for every parameter set "
+                 "(compare_with_match); at the reference constants it never panics, returns the reference distance "
+                 "of the two parsed hashes when both parse, otherwise blames the first failing side with the "
+                 "parser's error (compare_with_spec); accepted operands with equal upper-cased digits are "
+                 "interchangeable, with or without prefix (compare_case_prefix_insensitive).",
+        "note": COMMON_NOTE,
+        "technique": "Lean 4 proof composing the parser (C04/C05) and distance (C02) theorems + differential replay",
+    },
 }
